@@ -188,5 +188,8 @@ def run(ctx):
                 'bases), FinalSetup, RunModel} on a fixed model (source with units read by two connected inputs through src_indices, '
                 'auto-IVC behind a promoted input shared by two inputs, one with src_indices); every action replayed on a real Problem '
                 'with all six views compared; non-trivial = behaviours that set values and cross a phase boundary' % depth)
+    from vf.drivers import c07gen
+    ngen, nev = c07gen.run_generated(ctx)
+    ctx.rule += ('; second family: %d generated hierarchical models, histories of set_val (outputs, absolute inputs, promoted names at every level; indices; broadcast) / final_setup / run_model validated event by event (%d events) against OMSetGetTrace.tla with all views compared' % (ngen, nev))
     ctx.assumptions = ['writes that address the same source entry twice (repeated positions) are outside the property and disabled in the spec',
-                       'a single fixed model; the generated-model version is future work']
+                       'generated models of the second family are feed-forward (no cycles), default solvers, no solver scaling']
